@@ -180,6 +180,34 @@ def replay(pid, path):
     return EXIT_OK
 
 
+def _digest_chunk(args):
+    pid, tier, seed, lo, hi = args
+    mod = load_prop(pid)
+    rows = []
+    for idx in range(lo, hi):
+        sc = mod.gen(run_seed(seed, pid, idx), tier)
+        sc["property"], sc["verif_seed"], sc["run"] = pid, seed, idx
+        out = mod.check(sc)
+        rows.append("%d %s %s %s" % (idx, out.digest, out.sig, ",".join(sorted(out.tags()))))
+    return rows
+
+
+def digests(pid, tier, seed, n, workers):
+    """Event-log digests of run indices 0..n-1 (used by selftest/determinism.sh across hash seeds / worker counts)."""
+    workers = max(1, min(workers, os.cpu_count() or 1))
+    step = max(1, (n + workers - 1) // workers)
+    jobs = [(pid, tier, seed, lo, min(n, lo + step)) for lo in range(0, n, step)]
+    if workers == 1:
+        res = [_digest_chunk(j) for j in jobs]
+    else:
+        with cf.ProcessPoolExecutor(max_workers=workers, mp_context=mp.get_context("fork")) as ex:
+            res = list(ex.map(_digest_chunk, jobs, timeout=1800))
+    for rows in res:
+        for r in rows:
+            print(r)
+    return EXIT_OK
+
+
 def main(argv=None):
     import argparse
     ap = argparse.ArgumentParser()
@@ -189,6 +217,7 @@ def main(argv=None):
     ap.add_argument("--runs", type=int)
     ap.add_argument("--workers", type=int, default=int(os.environ.get("VERIF_WORKERS", "16")))
     ap.add_argument("--no-shrink", action="store_true")
+    ap.add_argument("--digests", type=int, help="determinism self-test: print 'idx digest tags' for run indices 0..N-1")
     a = ap.parse_args(argv)
     pid = a.pid.upper()
     seed = int(os.environ.get("VERIF_SEED", "0") or 0)
@@ -196,6 +225,8 @@ def main(argv=None):
         os.environ["PYTHONHASHSEED"] = "0"
         os.environ.setdefault("PYTHONWARNINGS", "ignore")
         os.execv(sys.executable, [sys.executable, "-m", "dsim.engine"] + (argv if argv is not None else sys.argv[1:]))
+    if a.digests:
+        return digests(pid, a.tier, seed, a.digests, a.workers)
     if a.replay:
         try:
             return replay(pid, a.replay)
